@@ -721,6 +721,39 @@ func (g *gen) tunnelled(i int) *Script {
 	return sc
 }
 
+// multicast: Client.Protocol = UDP multicast (listeners on the group the server names); not modelled
+func (g *gen) multicast(i int) *Script {
+	sc := g.baseScript(false)
+	sc.Name = fmt.Sprintf("mcast-%d", i)
+	sc.Model = false
+	sc.Cfg.Proto = 2
+	sc.Cfg.BackCh = false
+	for j := range sc.Medias {
+		sc.Medias[j].Back = false
+	}
+	if g.chance(0.6) {
+		v := pickOf(g,
+			"RTP/AVP;multicast;destination=239.64.0.9;port=15000-15001;ttl=1",
+			"RTP/AVP;multicast;destination=239.64.0.9;port=15000-15001;source=127.0.0.1",
+			"RTP/AVP;multicast;destination=nonexistent.invalid;port=15000-15001",
+			"RTP/AVP;multicast;destination=127.0.0.1;port=0-1",
+			"RTP/AVP;multicast;destination=224.0.0.1;port=65535-65536",
+			"RTP/AVP;multicast;destination=ff02::1;port=15000-15001",
+			"RTP/AVP;multicast;port=15000-15001",
+			"RTP/AVP;multicast;destination=239.64.0.9",
+			"RTP/AVP;unicast;client_port=5000-5001;server_port=6000-6001",
+			"RTP/AVP/TCP;unicast;interleaved=0-1",
+			"RTP/AVP;multicast;destination=239.64.0.9;port=15000-15001;source=nonexistent.invalid",
+		)
+		sc.React = append(sc.React, Reaction{M: "SETUP", N: 1 + g.pick(2), Acts: []Action{{Kind: "resp", Muts: []Mut{{Op: "set", K: "Transport", V: v}}}}, Abs: "?"})
+	}
+	for range g.pick(2) {
+		g.mutateOne(sc, g.chance(0.3))
+	}
+	sc.Model = false
+	return sc
+}
+
 // concurrent: Close() is called from another goroutine while a call is being served
 func (g *gen) concurrent(i int) *Script {
 	sc := g.baseScript(g.chance(0.3))
